@@ -5,6 +5,7 @@ import (
 	"encoding/hex"
 	"fmt"
 	"sort"
+	"strings"
 
 	"github.com/openacid/slim/trie"
 )
@@ -548,9 +549,32 @@ func runScanCase(ctx *Ctx, lc *LCase, caseIdx int) {
 				insts = append(insts, Inst{"golden-loaded", gl})
 			}
 		}
+		// the same complete index as 0.5.10 / 0.5.11 wrote it (control-byte
+		// prefixes, bare leaf bytes; fixed-size values, de-duplication on), and
+		// reloaded in place into an instance that has already scanned another trie
+		if !lc.Exh && o.D && o.C && !o.I && !o.L && !lc.Vals.IsNone() && lc.Vals.FixedSize() {
+			ver := []string{"0.5.10", "0.5.11"}[(caseIdx+oi)%2]
+			if ls, lerr := legacyStream0510(stream, ver); lerr == nil {
+				if lg, err, pv, stack := loadTrie(enc, ls); pv != nil || err != nil {
+					env.inst = "legacy-" + ver + "-loaded"
+					env.viol("load-failed", map[string]interface{}{"panic": fmt.Sprint(pv), "error": fmt.Sprint(err), "stack": stack})
+				} else {
+					insts = append(insts, Inst{"legacy-" + ver + "-allpref-loaded", lg})
+				}
+			}
+		}
+		if !lc.Exh && (caseIdx+oi)%3 == 0 {
+			var oldVals interface{}
+			if !lc.Vals.IsNone() && len(lc.Keys) >= 3 {
+				oldVals = lc.Vals.Prefix(3).Slice()
+			}
+			if rl, err, pv, _ := loadTrieReused(enc, stream, oldVals); pv == nil && err == nil {
+				insts = append(insts, Inst{"reloaded", rl})
+			}
+		}
 		for _, in := range insts {
 			env.inst, env.st = in.Name, in.St
-			ctx.Count("instances:"+in.Name, 1)
+			ctx.Count("instances:"+strings.SplitN(in.Name, "-0.5.1", 2)[0], 1)
 			ok := true
 			for si, start := range starts {
 				if !ok {
